@@ -165,6 +165,50 @@ def run(ctx):
         ctx.count(core.digest([pack(b), pos, point]))
         if len(bad) % 4 == 0:
             add_block(b.copy())          # a valid block right after a rejected / damaged stream: the decoder starts afresh
+    # aimed at every impossible (state, point) pair - 8 x 8 of them - with a tail that is a valid continuation from each of the
+    # eight states a lenient decoder might assume after swallowing the point (a random tail is rejected a few points later
+    # anyway and hides such a decoder), at the first, an inner and the last position
+    Tt = data["T"]
+    aimed = []
+
+    def stream(points):
+        e = bitarray([0] * 196)
+        for q, pt in enumerate(points):
+            for half in (0, 1):
+                j = pos_of_in[2 * q + half]
+                bits = key[data["PD"][pt][half]]
+                e[2 * j], e[2 * j + 1] = bits[0], bits[1]
+        return e
+
+    for st in range(8):
+        for pt in [x for x in range(16) if x not in Tt[st]]:
+            for pos in (0, 1 + (st + pt) % 46, 48):
+                if pos == 0 and st != 0:
+                    continue
+                for q in range(8) if pos < 48 else (0,):
+                    tri = [rng.randrange(8) for _ in range(48)] + [0]
+                    if pos > 0:
+                        tri[pos - 1] = st
+                    pts, cur = [], 0
+                    for k_, t_ in enumerate(tri):
+                        if k_ == pos:
+                            pts.append(pt)
+                            cur = q
+                        else:
+                            pts.append(Tt[cur][t_])
+                            cur = t_
+                    try:
+                        T.decode(stream(pts))
+                        outcome = "decoded"
+                    except AssertionError:
+                        outcome = "rejected"
+                    except Exception as ex:  # noqa
+                        outcome = "raise:" + type(ex).__name__
+                    aimed.append({"points": pts, "pos": pos, "state": st, "point": pt, "assumed": q, "outcome": outcome})
+                    ctx.count(core.digest(["aimed", pts]))
+    if len(aimed) < 500:
+        raise core.MachineryError(f"only {len(aimed)} aimed streams built")
+    data["aimed"] = aimed
     data["blocks"], data["bad"] = blocks, bad
     path = os.path.join(ctx.rundir, "c10_data.json")
     json.dump(data, open(path, "w"))
@@ -175,7 +219,7 @@ def run(ctx):
                       "(transition table learned from the implementation is not row-injective)", {"trace": [s.get("_text") for s in res.trace]})
     elif not res.ok:
         raise core.MachineryError("TLC did not complete")
-    ctx.traces_validated = len(blocks) + len(bad) + len(comp)
+    ctx.traces_validated = len(blocks) + len(bad) + len(comp) + len(aimed)
     ctx.exhaustive = False
     ctx.note("structure_exhaustive", True)
     groups = {}
@@ -184,7 +228,7 @@ def run(ctx):
     for (ph, why), idxs in sorted(groups.items()):
         ctx.violation(f"trellis/{why}", f"{why}: {len(idxs)} {ph} items fail, first index {idxs[0]}",
                       {"phase": ph, "clause": why, "count": len(idxs),
-                       "first": (blocks[idxs[0]] if ph == "block" else bad[idxs[0]] if ph == "bad" else comp[idxs[0]] if ph == "comp" else None)})
+                       "first": (blocks[idxs[0]] if ph == "block" else bad[idxs[0]] if ph == "bad" else comp[idxs[0]] if ph == "comp" else aimed[idxs[0]] if ph == "aimed" else None)})
     drift = {}
     for v in core.parse_printed_json(res, tag="DRIFT"):
         drift.setdefault((v["phase"], v["why"]), []).append(v["idx"])
